@@ -9,7 +9,7 @@ from vf.core import Part, Violation, call, from_puan
 from vf.props import common
 
 PROPERTY = "C09"
-RULE = ("Hypothesis RuleBasedStateMachine over a pool (<=6) of live models/configurators. Rules: create model / configurator "
+RULE = ("Part 'twin_queries': SCRIPTED histories - a model and a configurator, each with every twin (one leaf's bounds replaced by bounds with the same sum in all occurrences or in one occurrence only (ill-defined twin), swapped connective, other default, default removed), created in either order, then every kind of query put to both. Hypothesis RuleBasedStateMachine over a pool (<=6) of live models/configurators. Rules: create model / configurator "
         "from a generated spec; create a TWIN of a pooled object (same ids and shape but a leaf's bounds replaced by another "
         "pair with the same sum, a defaulted configurator Any replaced by the structurally identical plain Any(d, Any(rest)), "
         "another default, a swapped All/Any or shifted threshold under the same explicit id, or an identical copy) and re-run an object's last query on its twin; QUERY a pooled object (evaluate, evaluate_propositions, assume, reduce, negate, "
@@ -274,7 +274,7 @@ def make_interp(entry, seeds, allow_compound, named=None):
 
 
 PROBE_MODEL = ["evaluate", "evaluate_propositions", "evaluate", "to_ge_polyhedron", "solve", "reduce", "negate", "to_json", "errors", "flags", "inspect"]
-PROBE_CFG = PROBE_MODEL + ["ge_polyhedron", "select", "default_prios", "leafs", "ge_polyhedron", "select"]
+PROBE_CFG = PROBE_MODEL + ["ge_polyhedron", "select", "default_prios", "leafs", "ge_polyhedron", "select", "poly_analysis", "select"]
 
 
 def make_query(entry, kind_i, seeds, allow_compound, named, extra_rule, probe=False):
@@ -617,7 +617,7 @@ def twin_queries(tier):
                    {"q": "to_ge_polyhedron", "active": True}, {"q": "to_ge_polyhedron", "active": False}, {"q": "flags"}, {"q": "inspect"},
                    {"q": "solve", "objs": [[["a", 1], ["n", -1]]], "solver": "exact", "virtual": True}]
         if is_cfg:
-            queries += [{"q": "ge_polyhedron"}, {"q": "default_prios"}, {"q": "leafs"},
+            queries += [{"q": "ge_polyhedron"}, {"q": "poly_analysis"}, {"q": "default_prios"}, {"q": "leafs"},
                         {"q": "select", "prios": [[["p", 1]], [["b", 2], ["q", -1]]], "solver": "exact", "only_leafs": False},
                         {"q": "select", "prios": [[["r", 1]]], "solver": "marker", "only_leafs": True}]
         seen = set()
